@@ -94,6 +94,7 @@ impl DependencyResolver {
         }
 
         // Topological sort using Kahn's algorithm
+        #[cfg_attr(feature = "verif-hooks", allow(unused_mut))]
         let mut queue: VecDeque<_> = in_degree
             .iter()
             .filter_map(|(node, &degree)| {
@@ -104,6 +105,13 @@ impl DependencyResolver {
                 }
             })
             .collect();
+        #[cfg(feature = "verif-hooks")]
+        let mut queue: VecDeque<_> = crate::verif_hooks::permute(
+            "S17.queue",
+            queue.into_iter().collect::<Vec<_>>(),
+            |n: &DependencyNode| format!("{}|{}|{:?}", n.name, n.path, n.node_type),
+        )
+        .into();
         let mut result = Vec::new();
 
         while let Some(node) = queue.pop_front() {
